@@ -83,7 +83,7 @@ func restValues() []string {
 var c12Malformed = map[string][]string{
 	"Grpc-Timeout":       {"5", "5x", "S", "123456789S", "+1S", "-1S", " 1S", "1 S", "1S ", "1.5S", "0x1S", "1s", "1h", "١S", "1SS", "1e2S"},
 	"Connect-Timeout-Ms": {"-5", "x", "1.5", "+5", " 5", "5 ", "0x10", "1e3", "5ms", "١"},
-	"X-Server-Timeout":   {"abc", "-5", "-0.5", "NaN", "Inf", "+Inf", "-Inf", "0x10", "1s", " 1", "1 ", "1,5", "1_000", "0x1p-2", "--1", "١",
+	"X-Server-Timeout": {"abc", "-5", "-0.5", "NaN", "Inf", "+Inf", "-Inf", "0x10", "1s", " 1", "1 ", "1,5", "1_000", "0x1p-2", "--1", "١",
 		// negative or hexadecimal AND beyond float64: the range error must not pre-empt the sign / syntax check
 		"-1e400", "-1E+999", "-9e99999", "-1e309", "0x1p99999", "-0x1p99999", "-Infinity", "-inf", "nan", "infinity", "-1e300", "-1.5e2"},
 }
